@@ -218,13 +218,33 @@ def ref_consecutive(p: tuple, q: tuple) -> bool:
     return leaves.index(p) + 1 == leaves.index(q) if p in leaves and q in leaves else False
 
 
-def h_consecutive(p: List[int], q: List[int]) -> bool:
+def _share_prefix(p: List[int], q: List[int]) -> bool:
+    return len(p) > 0 and len(q) > 0 and p[0] == q[0]
+
+
+def h_consecutive_top(p: List[int], q: List[int]) -> bool:
     """
     pre: len(p) <= MAXDEPTH and len(q) <= MAXDEPTH
     pre: _valid(p) and _valid(q) and _part(p)
     pre: _is_leaf(p) and _is_leaf(q)
+    pre: not _share_prefix(p, q)
     post: _
     """
+    # the two leaves have no common ancestor below the root
+    p1, q1 = tuple(vlib.realize(p)), tuple(vlib.realize(q))
+    return P.consecutive(TREE, p1, q1) == ref_consecutive(p1, q1)
+
+
+def h_consecutive_nested(p: List[int], q: List[int]) -> bool:
+    """
+    pre: len(p) <= MAXDEPTH and len(q) <= MAXDEPTH
+    pre: _valid(p) and _valid(q) and _part(p)
+    pre: _is_leaf(p) and _is_leaf(q)
+    pre: _share_prefix(p, q)
+    post: _
+    """
+    # the two leaves share a proper ancestor below the root (KNOWN FINDING on the pinned tree:
+    # relative leaf paths are compared with absolute argument paths)
     p1, q1 = tuple(vlib.realize(p)), tuple(vlib.realize(q))
     return P.consecutive(TREE, p1, q1) == ref_consecutive(p1, q1)
 
